@@ -262,7 +262,11 @@ impl StateHandle {
         }
         .map_err(|_| FlexiLoggerError::Poison)?;
         flwb.assert_write_mode((*state).config().write_mode)?;
-        *state = flwb.try_build_state()?;
+        let new_state = flwb.try_build_state()?;
+        // The old state must be shut down properly; especially its cleanup thread must have
+        // finished its work before the new state (which can deal with the same files) is used.
+        state.shutdown();
+        *state = new_state;
         Ok(())
     }
 
